@@ -119,15 +119,16 @@ func runC08(r *ev.Run) {
 	if r.Thorough() {
 		depth = 4
 	}
-	r.Rule = fmt.Sprintf("every sequence of length <=%d (quick tier: every sequence of length 2, and of length 3 over the 8 operations that move pages, roots or definitions) over an alphabet of %d write transactions committed by a real SQLite connection in another process (insert, update, delete, bulk insert growing the file past its size at Open, delete+VACUUM shrink, VACUUM to another page size, create/drop table, create/drop index, ALTER TABLE ADD COLUMN, drop+recreate a table under the same name, WITHOUT ROWID change, incremental_vacuum) from 3 base databases (8 pages, auto_vacuum; 300+ pages > the 100 page cache with sequences one step shorter); handles opened at depth 0 and at every later depth, plus at every depth two handles whose first transaction comes only after the next commit (one starting with the high level API, one with RLock + low level reads) and one opened at depth 0 that is first read after the last commit; after every step every awake handle is read through the high level API and through the low level API inside RLock/RUnlock, twice; oracle: equals SQLite's dump of the file at that moment and a freshly opened handle's dump. non-trivial = sequences containing a write that changes the file", depth, len(c08Alphabet))
+	r.Rule = fmt.Sprintf("every sequence of length <=%d (quick tier: every sequence of length 2, and of length 3 over the 8 operations that move pages, roots or definitions) over an alphabet of %d write transactions committed by a real SQLite connection in another process (insert, update, delete, bulk insert growing the file past its size at Open, delete+VACUUM shrink, VACUUM to another page size, create/drop table, create/drop index, ALTER TABLE ADD COLUMN, drop+recreate a table under the same name, WITHOUT ROWID change, incremental_vacuum) from 3 base databases (8 pages, auto_vacuum; 300+ pages > the 100 page cache with sequences one step shorter); handles opened at depth 0 and at every later depth, plus at every depth two handles whose first transaction comes only after the next commit (one starting with the high level API, one with RLock + low level reads) and one opened at depth 0 that is first read after the last commit; the sequences of length <=2 (all, thorough) are run again with a writer that uses synchronous=OFF and, after every commit, opens its next transaction at once and leaves it open while the handles read (RESERVED lock, journal header already complete); after every step every awake handle is read through the high level API and through the low level API inside RLock/RUnlock, twice; oracle: equals SQLite's dump of the file at that moment and a freshly opened handle's dump. non-trivial = sequences containing a write that changes the file", depth, len(c08Alphabet))
 	r.Set("depth", depth)
 	dir := ev.TmpDir("c08")
 	defer os.RemoveAll(dir)
 	bases := c08Bases()
 	// base images via the peer (real files)
 	type job struct {
-		base int
-		seq  []int
+		base   int
+		seq    []int
+		openTx bool
 	}
 	var jobs []job
 	// quick tier: full depth-2 enumeration plus depth 3 over the operations that move pages, roots or definitions
@@ -148,7 +149,7 @@ func runC08(r *ev.Run) {
 		if !r.Thorough() && len(cur) == depth-1 {
 			for b := range bases {
 				if b != 1 {
-					jobs = append(jobs, job{b, append([]int{}, cur...)})
+					jobs = append(jobs, job{b, append([]int{}, cur...), false})
 				}
 			}
 		}
@@ -157,12 +158,12 @@ func runC08(r *ev.Run) {
 		}
 		if len(cur) == depth-1 {
 			// the 300 page base is 40x more expensive to dump: one step less
-			jobs = append(jobs, job{1, append([]int{}, cur...)})
+			jobs = append(jobs, job{1, append([]int{}, cur...), false})
 		}
 		if len(cur) == depth {
 			for b := range bases {
 				if b != 1 {
-					jobs = append(jobs, job{b, append([]int{}, cur...)})
+					jobs = append(jobs, job{b, append([]int{}, cur...), false})
 				}
 			}
 			return
@@ -172,6 +173,12 @@ func runC08(r *ev.Run) {
 		}
 	}
 	gen(nil)
+	// the same sequences with a writer that keeps a transaction open between its commits
+	for _, j := range append([]job{}, jobs...) {
+		if j.base != 1 && (r.Thorough() || len(j.seq) <= 2) {
+			jobs = append(jobs, job{j.base, j.seq, true})
+		}
+	}
 	r.Set("sequences", len(jobs))
 	baseImg := make([][]byte, len(bases))
 	{
@@ -215,14 +222,16 @@ func runC08(r *ev.Run) {
 				if i >= len(jobs) {
 					return
 				}
-				c08Sequence(r, p, dir, w, i, bases[jobs[i].base].name, baseImg[jobs[i].base], jobs[i].seq)
+				c08Sequence(r, p, dir, w, i, bases[jobs[i].base].name, baseImg[jobs[i].base], jobs[i].seq, jobs[i].openTx)
 			}
 		}(w)
 	}
 	wg.Wait()
 }
 
-func c08Sequence(r *ev.Run, p *Peer, dir string, w, n int, baseName string, base []byte, seq []int) {
+// openTx: the writer runs with synchronous=OFF and, after every commit, opens the next transaction at
+// once and changes page 1 (RESERVED lock, a journal whose header is already complete) while the handles read
+func c08Sequence(r *ev.Run, p *Peer, dir string, w, n int, baseName string, base []byte, seq []int, openTx bool) {
 	path := filepath.Join(dir, fmt.Sprintf("w%d.sqlite", w))
 	os.Remove(path)
 	os.Remove(path + "-journal")
@@ -232,6 +241,16 @@ func c08Sequence(r *ev.Run, p *Peer, dir string, w, n int, baseName string, base
 	}
 	p.MustOK("open " + path)
 	defer p.Do("close")
+	inTx := false
+	if openTx {
+		p.MustOK("exec PRAGMA synchronous=OFF")
+		baseName += " (writer keeps a transaction open, synchronous=OFF)"
+		defer func() {
+			if inTx {
+				p.Do("exec ROLLBACK")
+			}
+		}()
+	}
 	names := make([]string, len(seq))
 	for i, s := range seq {
 		names[i] = c08Alphabet[s].name
@@ -270,6 +289,10 @@ func c08Sequence(r *ev.Run, p *Peer, dir string, w, n int, baseName string, base
 	}
 	changed := false
 	for step := 0; step <= len(seq); step++ {
+		if inTx {
+			p.MustOK("exec ROLLBACK")
+			inTx = false
+		}
 		if step > 0 {
 			st, rest := p.Do("exec " + c08Alphabet[seq[step-1]].sql)
 			if st != "ok" {
@@ -278,6 +301,12 @@ func c08Sequence(r *ev.Run, p *Peer, dir string, w, n int, baseName string, base
 				_ = rest
 			} else {
 				changed = true
+			}
+		}
+		if openTx {
+			if st, _ := p.Do("exec BEGIN IMMEDIATE"); st == "ok" {
+				inTx = true
+				p.MustOK(fmt.Sprintf("exec PRAGMA user_version=%d", step+1))
 			}
 		}
 		if !openHandle(step) {
